@@ -36,13 +36,14 @@ def setup_env():
         return
     e = os.environ
     e["PYTHONHASHSEED"] = "0"
-    for k in ("OMP_NUM_THREADS", "MKL_NUM_THREADS", "OPENBLAS_NUM_THREADS", "NUMBA_NUM_THREADS"):
-        e[k] = "1"
+    if e.get("VERIF_KEEP_THREAD_ENV") != "1":  # C03 varies these on purpose
+        for k in ("OMP_NUM_THREADS", "MKL_NUM_THREADS", "OPENBLAS_NUM_THREADS", "NUMBA_NUM_THREADS"):
+            e[k] = "1"
     e["TZ"] = "UTC"
     e[GUARD] = "1"
     e["PYTHONWARNINGS"] = "ignore"
     e["PYTHONDONTWRITEBYTECODE"] = "1"
-    cache = os.path.join(VERIF_DIR, ".cache", "numba", source_hash())
+    cache = e.get("VERIF_NUMBA_CACHE") or os.path.join(VERIF_DIR, ".cache", "numba", source_hash())
     os.makedirs(cache, exist_ok=True)
     e["NUMBA_CACHE_DIR"] = cache
     # the working tree under test takes precedence over any installed copy
